@@ -172,6 +172,10 @@ z: {shape: hexagon; style.3d: true; label.near: outside-right-top}
 p: {shape: c4-person; style.stroke-width: 8}
 x -> y -> z -> p: a label that is quite long
 `,
+	`h: {shape: hexagon; style.3d: true; label: a hexagon label; label.near: outside-right-center}
+r: {style.3d: true; label: "tall\nlabel\nof\nmany\nlines\non\na\nsmall\nbox"; label.near: outside-right-center; width: 40; height: 30}
+h -> r
+`,
 	`direction: right
 t: {tooltip: tip text}
 l: {link: https://example.com}
@@ -188,7 +192,7 @@ func run(c *hl.Ctx) error {
 		return nil
 	}
 	r := c.Rand()
-	n := c.Pick(260, 20000)
+	n := c.Pick(200, 20000)
 	if c.Search && c.Tier != "thorough" {
 		n = 1200
 	}
